@@ -398,3 +398,33 @@ M('c06-conductor-shutdown-released-before-request-awaited', 'C06', 'R21', _TC,
   "        #   to proceed.\n        async with shutting_down:\n            shutting_down.notify()\n\n        await task_req\n")
 M('c06-asgi-conductor-enter-does-not-wait-for-startup', 'C06', 'R21', _TC,
   "        await _wait_for_startup(self._lifespan_event_collector.events)\n\n        return self\n", "        return self\n")
+
+# ------------------------------------------------------------------ wave 10
+_AA = 'falcon/asgi/app.py'
+_SEND_BLOCK = ("                                    'body': data or b'',\n                                    'more_body': True,\n"
+               "                                }\n                            )\n")
+# R22 (s10-c06-1): the file-like resp.stream loop ends only on an EMPTY read
+M('c06-asgi-stream-loop-stops-after-short-block', 'C06', 'R22', _AA, _SEND_BLOCK,
+  _SEND_BLOCK + "\n                            if data and len(data) < self._STREAM_BLOCK_SIZE:\n                                break\n")
+M('c06-asgi-stream-loop-stops-unless-block-is-full', 'C06', 'R22', _AA, _SEND_BLOCK,
+  _SEND_BLOCK + "                            if len(data or b'') != self._STREAM_BLOCK_SIZE:\n                                break\n")
+M('c06-asgi-stream-loop-short-block-is-eof', 'C06', 'R22', _AA,
+  "                        if data == b'':\n                            break\n",
+  "                        if len(data) < self._STREAM_BLOCK_SIZE:\n                            if data:\n"
+  "                                await send({'type': EventType.HTTP_RESPONSE_BODY, 'body': data, 'more_body': True})\n"
+  "                            break\n")
+M('c06-wsgi-stream-iterator-stops-after-short-block', 'C06', 'R22', 'falcon/app_helpers.py',
+  "        if data == b'':\n            raise StopIteration\n        else:\n            return data\n",
+  "        if data == b'' or len(data) < self._block_size:\n            raise StopIteration\n        else:\n            return data\n")
+# R23 = C12 R1 (s10-c06-2): the media access of the two request classes is event-language-equal
+_ASGI_MEDIA_ERR = "        except Exception as err:\n            self._media_error = err\n            raise\n        finally:\n            if handler.exhaust_stream:\n                await self.stream.exhaust()\n"
+M('c06-asgi-get-media-remembers-only-http-errors', 'C06', 'R23', 'falcon/asgi/request.py', _ASGI_MEDIA_ERR,
+  _ASGI_MEDIA_ERR.replace('except Exception as err', 'except errors.HTTPError as err'), also=('C12',))
+M('c06-asgi-get-media-does-not-remember-generic-errors', 'C06', 'R23', 'falcon/asgi/request.py', _ASGI_MEDIA_ERR,
+  _ASGI_MEDIA_ERR.replace("        except Exception as err:\n            self._media_error = err\n            raise\n", ''), also=('C12',))
+# R20 (s10-c06-3): port given as a numeric string: normalised before it is compared with the default-port constants
+M2('c06-create-scope-port-converted-only-for-the-server-pair', 'C06', 'R20', [
+    {'file': _TH, 'old': "            port = 443\n    else:\n        port = int(port)\n", 'new': "            port = 443\n"},
+    {'file': _TH, 'old': "        scope['server'] = iter([host, port])\n", 'new': "        scope['server'] = iter([host, int(port)])\n"}])
+M('c06-create-environ-port-string-not-normalised', 'C06', 'R20', _TH,
+  "        port_str = str(int(port))\n", "        int(port)\n        port_str = str(port)\n")
